@@ -477,8 +477,8 @@ pub fn mutate_havoc(seed: &Seed, others: &[Seed], rng: &mut Rng) -> (Vec<u8>, Mu
 // amplifier families (C07): a hostile structure replicated k times
 // ---------------------------------------------------------------------------------------
 
-pub const AMPLIFIERS: [&str; 16] = [
-    "many_stsd_esds_overrun", "many_trafs_long_run",
+pub const AMPLIFIERS: [&str; 17] = [
+    "many_traks_many_moofs", "many_stsd_esds_overrun", "many_trafs_long_run",
     "zero_size_child_in_moov", "zero_size_child_in_trak", "zero_size_child_in_stbl", "zero_size_child_in_udta", "zero_size_child_in_moof",
     "tiny_boxes_top", "tiny_children_in_moov", "many_traks_overlapping_avcc", "many_traks_overlapping_hvcc", "count_max_no_payload",
     "trun_count_max_no_fields", "nested_overrun_chain", "many_meta_rewind", "emsg_many",
@@ -700,6 +700,29 @@ pub fn amplifier(family: &str, target: usize, rng: &mut Rng) -> Vec<u8> {
                 ser.bytes[jump_len_pos..jump_len_pos + 4].copy_from_slice(&enc4(filler_start.saturating_sub(after) as u32));
             }
             return ser.bytes;
+        }
+        "many_traks_many_moofs" => {
+            // k tracks and m movie fragments at once (each fragment holds one track fragment of
+            // track 1): anything sized "per track x per fragment" is quadratic in the input
+            // length although every single count is honest and small.
+            let k = (target / 2 / 420).max(2);
+            let m = (target / 2 / 56).max(2);
+            let mut mv = movie.clone();
+            mv.tracks.clear();
+            for i in 0..k {
+                mv.tracks.push(base_trak(rng, i as u32 + 1, Codec::Ttxt));
+            }
+            let offs: Vec<Vec<u64>> = mv.tracks.iter().map(|t| vec![0u64; t.layout.chunks.len()]).collect();
+            top.push(ftyp);
+            top.push(build_moov(&mv, &offs, Some(vec![refenc::TrexF { track_id: 1, desc_index: 1, duration: 1, ..Default::default() }])));
+            for i in 0..m {
+                let mut moof = BoxT::new(b"moof");
+                moof.push(refenc::enc_mfhd(0, 0, i as u32 + 1));
+                let mut traf = BoxT::new(b"traf");
+                traf.push(refenc::enc_tfhd(&refenc::TfhdF { track_id: 1, ..Default::default() }));
+                moof.push(traf);
+                top.push(moof);
+            }
         }
         "many_trafs_long_run" => {
             // t-1 empty track fragments followed by one with a long run: the cost of reading the
